@@ -131,18 +131,21 @@ def oracle_pair(ep, outs):
     return fails
 
 
-def front_episode(rng):
+def front_episode(rng, cut=False):
     """the plugin where cmd/helios puts it — buildHandler over the real balancer, with the circuit breaker / limiter /
     passive checks switched on or off — against the same exchange made directly: statuses of every class (a 5xx is
     what the breaker counts), text bodies above min_size, clients that do and do not accept gzip"""
-    feats = "g" + "".join(f for f in "crp" if rng.random() < 0.6)
+    feats = "g" + "".join(f for f in "crp" if rng.random() < 0.6) + rng.choice(["", "", "l", "L", "lL"])
     ep = ["px new round_robin 00 - %s" % feats]
     for _ in range(rng.randint(3, 6)):
         status = rng.choice([200, 200, 201, 404, 410, 500, 502, 503, 503, 504])
         ct = rng.choice(["text/plain", "text/html; charset=utf-8", "application/json", "image/png"])
         total = rng.choice([1, 40, 600, 5000, 70000])
         ops = ["sh:Content-Type:%s" % c01.enc(ct)]
-        if rng.random() < 0.5:
+        if cut:
+            # the backend dies mid-body (it declared more than it sends): what the client decodes must break off too
+            ops.append("sh:Content-Length:%d" % (total + rng.choice([1, 9, 5000])))
+        elif rng.random() < 0.5:
             ops.append("sh:Content-Length:%d" % total)
         ops.append("wh:%d" % status)
         seed = rng.randint(0, 250)
@@ -154,6 +157,21 @@ def front_episode(rng):
             ep.append("px x %s GET /p %s 0 cl %s" % (mode, c01.hdr_tok(h), ";".join(ops)))
     ep.append("px close")
     return ep
+
+
+def front_cut_oracle(ep, outs):
+    """a backend that dies mid-body, seen through the buffering plugin: the client gets no answer at all or one that
+    breaks off — never a complete, well-formed answer made of part of the body"""
+    lines = C.op_lines(ep)
+    fails = []
+    for l, o in zip(lines, outs):
+        if not l.startswith("px x via"):
+            continue
+        if o.startswith("read-error") or " short=1 " in o.split("||")[0] + " ":
+            continue
+        if o.startswith("px status="):
+            fails.append("a response whose backend died mid-body reached the client as a complete answer: %s (%s)" % (o.split("||")[0][:120], l))
+    return fails
 
 
 def front_oracle(ep, outs):
@@ -171,7 +189,7 @@ def front_oracle(ep, outs):
         if "status" in fd and "status" in fv:
             if fd["status"] != fv["status"]:
                 fails.append("status changed behind the gzip plugin: backend %s, client %s (%s)" % (fd["status"], fv["status"], lines[i + 1]))
-            if fd.get("body") != fv.get("body") or fv.get("short") != "0":
+            if fd.get("body") != fv.get("body") or fv.get("short") != fd.get("short"):
                 fails.append("payload not preserved behind the gzip plugin: backend sent len:hash %s, client decoded %s short=%s (%s)" % (
                     fd.get("body"), fv.get("body"), fv.get("short"), lines[i + 1]))
         i += 2
@@ -210,6 +228,8 @@ def check(ctx):
     df = C.Differential(ctx, fbin, timeout=600, project=c01.project)
     fronts = [front_episode(ctx.rng) for _ in range(60 if ctx.thorough() else 12)]
     df.check(fronts, oracle=front_oracle, label="gzip-front")
+    cuts = [front_episode(ctx.rng, cut=True) for _ in range(30 if ctx.thorough() else 6)]
+    df.check_oracle_only(cuts, front_cut_oracle, "gzip-front-cut")
     ctx.cov["front_end_episodes"] = len(fronts)
     if getattr(df, "last", None):
         ctx.cov["front_end_exchanges_compressed"] = sum(1 for outs in df.last[0] for o in outs if "Content-Encoding=gzip" in o)
